@@ -5,6 +5,7 @@ import BV.Common.Aead
 import BV.C19.Model
 import BV.C19.Ellswift
 import BV.C19.Session
+import BV.C19.Stream
 namespace BV.C19.Driver
 open BV.Hex BV.Aead BV.C19
 
@@ -101,17 +102,75 @@ def parseFlags (toks : List String) : Option EpFlags :=
     else if t.startsWith "N" then (hexToNat? (t.drop 1).toString).map (fun n => { f with magic2 := some n })
     else none) {}
 
-def runEp (roleTok : String) (magic : Nat) (pre seed : List UInt8) (gLen : Nat) (decoys : List Nat)
-    (inp : List UInt8) (acts : List (List String)) : Option String := do
+/-- BIP324 leaves three things to the sender: WHICH ElligatorSwift encoding of its public key it
+sends, the garbage BYTES, and the decoy CONTENTS. They are not predicted: the harness records what
+the real endpoint wrote during the handshake (`hs`) and its private key, and the reference
+(1) checks that the first 64 bytes are an encoding of x(priv·G) obtainable from `xswiftec_inv`
+(so it decodes to the right x), (2) takes the next `gLen` bytes as the garbage, (3) opens the decoys
+with the session's own send keys, checks ignore bits and requested lengths and takes their contents —
+then runs the model on exactly these choices and finally requires the model's handshake bytes to be
+`hs` (anything else — wrong terminator, wrong AAD, missing ignore bit, extra bytes — is answered
+`invalid-handshake-bytes`). The random stream handed to the model is synthesised from the choices. -/
+def synthRnd (priv : Nat) (hs : List UInt8) (gLen : Nat) : Option (List UInt8) :=
+  match BV.Secp256k1.mulG (priv % BV.Secp256k1.n) with
+  | .inf => none
+  | .aff x _ =>
+    if hs.length < 64 then
+      -- nothing recorded (the endpoint wrote nothing): any valid draw will do
+      ((List.range 64).flatMap (fun u => (List.range 8).map (fun c => (u + 1, c)))).findSome? (fun uc =>
+        match Ellswift.xswiftecInv Ellswift.natOps uc.1 x uc.2 with
+        | some _ => some (natBE priv 32 ++ natBE uc.1 32 ++ [UInt8.ofNat uc.2] ++ List.replicate gLen 0)
+        | none => none)
+    else
+    let u := beToNat (hs.take 32)
+    let t := beToNat ((hs.drop 32).take 32)
+    match (List.range 8).find? (fun c => Ellswift.xswiftecInv Ellswift.natOps (u % BV.Secp256k1.p) x c == some t) with
+    | none => none
+    | some c => some (natBE priv 32 ++ natBE u 32 ++ [UInt8.ofNat c] ++ (hs.drop 64).take gLen)
+
+/-- the decoy contents the endpoint really sent (requested lengths `lens`); zeros if the handshake
+bytes do not get that far -/
+def decoyContents (s0 : Session) (garbage : List UInt8) (lens : List Nat) (body : List UInt8) :
+    Option (List (List UInt8)) :=
+  match recvSeq CP s0.send body (garbage :: List.replicate lens.length []) with
+  | some (rs, _, _) =>
+    let ds := rs.take lens.length
+    if ds.all (·.1) && ds.map (·.2.length) == lens && (rs.drop lens.length).all (fun r => !r.1 && r.2.isEmpty)
+    then some (ds.map (·.2)) else none
+  | none => none
+
+def runEp (roleTok : String) (magic : Nat) (pre seed : List UInt8) (gLen : Nat) (decoyLens : List Nat)
+    (inp : List UInt8) (acts : List (List String)) (rec : Option (Nat × List UInt8)) : Option String := do
   let parts := roleTok.splitOn "+"
   let role := parts.headD ""
   let fl ← parseFlags (match parts with | [_, fs] => fs.splitOn "," | _ => [])
-  let rnd := rndStream pre seed (32 + 33 * 256 + (min gLen 4096))
+  let magicI := fl.magic2.getD magic
+  let zeros := decoyLens.map (List.replicate · 0)
+  -- the sender's free choices: recorded (validated) or, for old corpus lines, the seeded stream
+  let (rnd, decoys) ← match rec with
+    | none => some (rndStream pre seed (32 + 33 * 256 + (min gLen 4096)), zeros)
+    | some (priv, hs) =>
+      match synthRnd priv hs gLen with
+      | none => none
+      | some rnd =>
+        let ell := hs.take 64
+        let garbage := (hs.drop 64).take gLen
+        let body := hs.drop (64 + gLen + 16)
+        if hs.length ≤ 64 + gLen + 16 ∨ inp.length < 64 then some (rnd, zeros) else
+        match Ellswift.v2Ecdh priv (inp.take 64) ell (role == "i") with
+        | none => some (rnd, zeros)
+        | some secret =>
+          let s0 := mkSession (schedule hkdfSha256 secret (if role == "i" then magicI else magic)) (role == "i")
+          some (rnd, (decoyContents s0 garbage decoyLens body).getD zeros)
   let (h, acq, rel) ←
-    if role == "i" then some (initiator CP hkdfSha256 (fl.magic2.getD magic) rnd gLen decoys inp, 0, 0)
+    if role == "i" then some (initiator CP hkdfSha256 magicI rnd gLen decoys inp, 0, 0)
     else if role == "r" then some (responderAdm CP hkdfSha256 magic rnd gLen decoys inp fl.adm) else none
-  let stopped := h.status == .garbageTooLarge || (h.status == .admission && acq == 1)
-  let pfx := if role == "i" then [] else responderPrefix magic inp stopped
+  -- the model, run on the sender's own choices, must reproduce the recorded handshake bytes
+  if (match rec with | some (_, hs) => h.written != hs | none => false) then
+    pure "invalid-handshake-bytes"
+  else
+  -- `ReceivedPrefix` is observed only where peer.go uses it: after ErrUseV1Protocol
+  let pfx := if h.status == .useV1 then responderPrefix magic inp false else []
   -- without an installed admission nothing is counted
   let (acq, rel) := if fl.adm == 0 then (0, 0) else (acq, rel)
   let common := ["pfx=" ++ listToHexTok pfx, "dg=" ++ (if h.status == .downgradeV1 then "1" else "0"),
@@ -311,8 +370,15 @@ def handle : List String → String
     match hexToNat? magic, hexToList? pre, hexToList? seed, gLen.toNat?, parseNats? decoys ",", hexToList? inp with
     | some magic, some pre, some seed, some gLen, some decoys, some inp =>
       let acts := if acts == "-" then [] else (acts.splitOn ";").map (·.splitOn ":")
-      (runEp role magic pre seed gLen decoys inp acts).getD "bad-op"
+      (runEp role magic pre seed gLen decoys inp acts none).getD "bad-op"
     | _, _, _, _, _, _ => "bad-op"
+  | ["ep", role, magic, pre, seed, gLen, decoys, inp, acts, priv, hs] =>
+    match hexToNat? magic, hexToList? pre, hexToList? seed, gLen.toNat?, parseNats? decoys ",", hexToList? inp,
+      hexToList? priv, hexToList? hs with
+    | some magic, some pre, some seed, some gLen, some decoys, some inp, some priv, some hs =>
+      let acts := if acts == "-" then [] else (acts.splitOn ";").map (·.splitOn ":")
+      (runEp role magic pre seed gLen decoys inp acts (some (if priv.isEmpty then 1 else beToNat priv, hs))).getD "invalid-ellswift"
+    | _, _, _, _, _, _, _, _ => "bad-op"
   | ["fsc", key, chunks] =>
     match hexToList? key, (if chunks == "-" then some [] else (chunks.splitOn ",").mapM (parseNats? · ":")) with
     | some k, some cs => if k.length ≠ 32 then "bad-op" else (runFsc k cs).getD "bad-op"
